@@ -347,6 +347,48 @@ def hostile_blocks(rng, nets):
     return out
 
 
+FWD_HEADERS = ["H:X-Forwarded-For", "H:X-Forwarded-For", "H:X-Real-Ip", "H:Forwarded", "H:X-Client-Ip", "H:True-Client-Ip", "H:X-Forwarded-Host"]
+LOOPBACK_PEERS = [("127.0.0.1:%d", "v4:127.0.0.1"), ("127.0.0.1:%d", "v4:127.0.0.1"), ("[::ffff:127.0.0.1]:%d", "m4:127.0.0.1"),
+                  ("[::1]:%d", "v6"), ("127.0.0.2:%d", "v4:127.0.0.2")]
+
+
+def forwarding_headers(rng, claimed):
+    """proxy-style headers naming the address `claimed` (an int) as the client"""
+    s = ip_str(claimed)
+    out = []
+    for _ in range(rng.choice([1, 1, 2])):
+        k = rng.choice(FWD_HEADERS)
+        v = rng.choice([s, s, "%s, 192.0.2.1" % s, "192.0.2.1, %s" % s, "for=%s" % s, "::ffff:%s" % s, " %s " % s])
+        out.append((k, v))
+    return out
+
+
+def header_op(rng, chain, env="010"):
+    """a request whose forwarding headers disagree with its TCP peer: the peer alone decides"""
+    r = rng.random()
+    port = rng.choice([1, 443, 4000, 65535])
+    if r < 0.45:      # loopback peer, certificate elsewhere, header names an address inside the certificate's block
+        nets = [rand_block(rng, rng.randrange(1, 33)) for _ in range(rng.choice([1, 1, 2]))]
+        nets = [(a, n) for a, n in nets if (0x7F000001 & netmask(n)) != a and (0x7F000002 & netmask(n)) != a] or [(0x0A000000, 8)]
+        a, n = rng.choice(nets)
+        fmt, cls = rng.choice(LOOPBACK_PEERS)
+        return ("nets", chain, nets, fmt % port, cls, env, forwarding_headers(rng, a | (rng.getrandbits(32) & ~netmask(n) & MASK32)), [])
+    if r < 0.75:      # loopback peer, certificate for loopback, header names a foreign address
+        nets = [rng.choice([(0x7F000000, 8), (0x7F000001, 32), (0x7F000000, 24), (0x7F000000, 30)])]
+        if rng.random() < 0.4:
+            nets.insert(rng.randrange(2), rand_block(rng, rng.randrange(8, 33)))
+        fmt, cls = LOOPBACK_PEERS[0]
+        return ("nets", chain, nets, fmt % port, cls, env, forwarding_headers(rng, rng.choice([0x08080808, 0xC0000201, rng.getrandbits(32)])), [])
+    # ordinary peer (inside or outside), header names the opposite
+    nets = [rand_block(rng, rng.randrange(1, 31))]
+    a, n = nets[0]
+    inside = a | (rng.getrandbits(32) & ~netmask(n) & MASK32)
+    outside = (a ^ (1 << (32 - n))) | (rng.getrandbits(32) & ~netmask(n) & MASK32)
+    peer, claimed = (inside, outside) if rng.random() < 0.5 else (outside, inside)
+    addr, cls = rng.choice(peer_forms(rng, peer)[:2])
+    return ("nets", chain, nets, addr, cls, env, forwarding_headers(rng, claimed), [])
+
+
 def hostile_form(rng, nets):
     """extra form parameters for a refresh: every parameter the role-certificate endpoints know (and a few
     spellings they do not), with values that would widen, move or rename the credential if honoured"""
@@ -406,6 +448,17 @@ def gen_handler(ctx, n):
     ops.append(("nets", 1, [(0x0A000000, 8), (0xC0A80000, 24)], "192.168.0.7:1234", "v4:192.168.0.7", "010",
                 [("requestor_netblock", "192.168.0.0/13"), ("identity", "role2"), ("target_netblock", "0.0.0.0/0")],
                 [("192.172.9.9:4000", "v4:192.172.9.9"), ("11.1.2.3:4000", "v4:11.1.2.3"), ("10.9.9.9:4000", "v4:10.9.9.9")]))
+    # forwarding headers never stand in for the TCP peer: loopback peer + header inside the block (refuse),
+    # loopback certificate from loopback + foreign header (admit)
+    for hdr in ("H:X-Forwarded-For", "H:X-Real-Ip"):
+        ops.append(("nets", 2, [(0x0A000000, 8)], "127.0.0.1:4000", "v4:127.0.0.1", "010", [(hdr, "10.1.2.3")], []))
+        ops.append(("nets", 2, [(0x7F000000, 8)], "127.0.0.1:4000", "v4:127.0.0.1", "010", [(hdr, "8.8.8.8")],
+                    [("127.0.0.1:4001", "v4:127.0.0.1")]))
+    # a certificate whose extension is present but yields no netblock is still not an ordinary keymaster certificate:
+    # presented with its issuer from anywhere it opens nothing
+    for der in (b"\x30\x00", der_ext([(V4AFI, [])]), der_ext([(bytes([0, 2]), [(0, bytes([0x20, 0x01, 0x0d, 0xb8]))])]),
+                b"\x30\x03\x02\x01", b"", der_ext([(V4AFI, [(0, bytes([10, 0, 0, 0, 0]))])]), der_ext([(V4AFI, [(8, b"")])])):
+        ops.append(("raw", 2, der, "192.168.1.1:443", "v4:192.168.1.1", "010", [], []))
     for nlen in range(33):
         a, _ = rand_block(rng, nlen)
         others = [rand_block(rng, rng.randrange(33)) for _ in range(rng.choice([0, 1, 2]))]
@@ -428,7 +481,9 @@ def gen_handler(ctx, n):
         r = rng.random()
         chain = rng.choice([1, 2, 2])
         env = rng.choice(["010"] * 6 + ["110", "000", "100"])
-        if r < 0.45:
+        if r < 0.12:
+            ops.append(header_op(rng, chain, env))
+        elif r < 0.45:
             nets = [rand_block(rng, rng.randrange(33)) for _ in range(rng.choice([1, 1, 2, 3, 4]))]
             tgt = rng.choice(nets)
             pa = rng.choice(boundary_addrs(*tgt) + [tgt[0] | rng.getrandbits(4), rng.getrandbits(32)])
@@ -596,6 +651,7 @@ def run(ctx):
         return c.finish(ctx)
     mops, mimpl, jops, jmeta, extops, extimpl = [], [], [], [], [], []
     umops, umimpl, ujops, ujmeta = [], [], [], []
+    amops, amimpl, ajops, ajmeta = [], [], [], []
     cn = c.hexs("role1")
     for o, line, out in zip(hnd, hops, himpl):
         kind, chain, arg, addr, cls, env, form, probes = o
@@ -617,6 +673,17 @@ def run(ctx):
             if r[0] == "PANIC":
                 c.add_violation(ctx, "panic:" + line, "%s handler panicked (recovered by the harness; net/http would drop the connection)" % name,
                                 {"handler_op": line, "impl": out})
+        # the credential decision itself (checkAuth(…, AuthTypeAny)) against the model and against the property's predicate
+        ext_txt = wire_str([(V4AFI, [enc_block(*x) for x in arg])]) if kind == "nets" else f["parse"]
+        user = "none" if f["authany"] == "-" else ("PANIC" if f["authany"] == "PANIC" else f["authany"].split(":")[0])
+        amops.append("auth %d %s %s %s %s" % (chain, cn, ext_txt, cls, env))
+        amimpl.append("PANIC" if user == "PANIC" else ("none" if user == "none" else "user " + user))
+        for which, st in (("refresh", rf[0]), ("certgen", cg[0])):
+            ajops.append("jauth %s %s %s %s %s %s" % (ext_txt, cls, env, cn, user, st))
+            ajmeta.append((line, which))
+        bump(hist.setdefault("authany", {}), "chain%d:%s" % (chain, "user" if user not in ("none", "PANIC") else user))
+        if any(k.startswith("H:") for k, _ in form):
+            bump(hist.setdefault("forwarding_headers", {}), "%s:%s" % (cls.split(":")[0] + (":loopback" if "127.0.0." in cls else ""), rf[0]))
         if kind == "nets":
             ns = ",".join(blk(*x) for x in arg) or "-"
             mops.append("refm %s %s %s %s" % (cn, ns, cls, env))
@@ -670,6 +737,14 @@ def run(ctx):
         if v != "ok":
             c.add_violation(ctx, ("panic:" if "panic" in v else "handler:") + line, "%s: %s (judge op %s)" % (which, v, j),
                             {"handler_op": line, "judge": v, "judge_op": j, "which": which})
+    c.diff_streams(ctx, "checkAuth(AuthTypeAny) on a certificate carrying the extension vs KM.IPBlock.authAny", amops, amimpl,
+                   drv(ctx, "model", amops))
+    seen_auth = set()
+    for (line, which), j, v in zip(ajmeta, ajops, drv(ctx, "judge", ajops)):
+        if v != "ok" and (line, v) not in seen_auth:
+            seen_auth.add((line, v))
+            c.add_violation(ctx, ("panic:" if "panic" in v else "auth:") + line, "%s: %s (judge op %s)" % (which, v, j),
+                            {"handler_op": line, "judge": v, "judge_op": j, "which": which})
     # using the refreshed certificate: statuses per probe address as the model predicts for the ORIGINAL netblocks
     um = drv(ctx, "model", umops)
 
@@ -718,7 +793,7 @@ def run(ctx):
         ctx.broken.append("generator covered %d of 33 prefix lengths" % hist["prefix_lengths_minted"])
     ctx.coverage.update({
         "evaluations": len(lops) + 2 * len(hnd) + len(gets) + 2 * len(umops),
-        "library_ops": len(lops), "handler_requests": 2 * len(hnd) + len(gets) + 2 * len(umops), "judged": len(jops) + len(ujops),
+        "library_ops": len(lops), "handler_requests": 2 * len(hnd) + len(gets) + 2 * len(umops), "judged": len(jops) + len(ujops) + len(ajops),
         "refreshes_with_hostile_form_parameters": hist.get("with_form_params", 0), "uses_of_refreshed_certificates": 2 * len(umops),
         "distinct_nontrivial": len(nontrivial),
         "rule": "non-trivial = distinct ops on which the implementation admitted a peer / issued a certificate, extracted netblocks "
